@@ -309,7 +309,7 @@ class Gen:
         return self.add({"op": "raw_stream", "t": t, "fam": "raw_stream", "kind": kind,
                          "chunks": [hx(c) for c in chunks if c], "gap_us": 150 if chunking == "dribble" else 0,
                          "close": "write" if close else ("expect" if ends_by_itself else "none"),
-                         "expect_rx": expect_rx, "wait_ms": 4000,
+                         "expect_rx": expect_rx, "wait_ms": 4000, "expect_deliveries": len(mframes),
                          "_stream": stream, "_intact": intact, "_mframes": mframes, "_mend": mend,
                          "_closes": close or ends_by_itself})
 
@@ -405,6 +405,7 @@ class Gen:
         return self.add({"op": "raw_udp", "t": "udp", "fam": "raw_udp", "kind": kind, "_mfix": mfix,
                          "dgrams": [{"from": f, "data": hx(d), "wait_ms": 400 if p is not None else 0} for f, d, p in dgrams],
                          "barrier": hx(barrier), "barrier_resp": hx(bresp),
+                         "expect_deliveries": sum(1 for r in mres if r[0] == "D"),
                          "_dgrams": dgrams, "_mres": mres})
 
     def fam_raw_udp(self):
@@ -468,7 +469,7 @@ class Gen:
                 break
         return self.add({"op": "raw_ws", "t": "ws", "fam": "raw_ws", "kind": kind,
                          "msgs": [{"type": ty, "data": hx(d)} for ty, d in msgs],
-                         "expect_msgs": len(exp) if stop is None else 0, "wait_ms": 3000,
+                         "expect_msgs": len(exp) if stop is None else 0, "wait_ms": 3000, "expect_deliveries": len(exp),
                          "_msgs": msgs, "_exp": exp, "_stop": stop})
 
     def fam_raw_ws(self):
@@ -513,6 +514,7 @@ class Gen:
         mfix = self.m.hrecv(S, declared if not chunked else -1, limited, fixed=True)
         return self.add({"op": "raw_http", "t": t, "fam": "raw_http", "kind": kind, "_mfix": mfix,
                          "chunks": [hx(head + wire)], "close": "write" if declared > len(body) else "", "wait_ms": 3000,
+                         "expect_deliveries": 1 if mres[0] == "D" else 0,
                          "_declared": declared, "_body": body, "_mres": mres})
 
     def fam_raw_http(self, t):
